@@ -456,8 +456,8 @@ def obligations(chk):
         chk.add(Ob(func, names[2], pid, hy + [z3.Select(cyc, x)], z3.And(is_fwd(ntype(x)), z3.Not(z3.Select(proc, x)))))
         chk.add(Ob(func, names[3], pid, hy, z3.Select(proc, root)))
         chk.add(Ob(func, names[4], pid, hy + [z3.Select(row, x)], z3.Or(z3.And(z3.Select(cyc, x), z3.Not(z3.Select(proc, x))), cert(rank_x, p, x))))
-    if n_exit == 0:
-        chk.errors.append("get_type_graph: no exit path explored")
+    # (a named clause, not a checker error: a change after which no path reaches the exit is a violation to report)
+    chk.add(Ob(func, "some-path-reaches-the-exit", "any", [], z3.BoolVal(n_exit > 0), {"exit_paths": n_exit}))
     chk.add(Ob(func, "cover", "pre", cover_hyps(results), z3.BoolVal(True), expect="sat"))
     chk.trusted.update(I.assumed_used)
     chk.extra_coverage["get_type_graph_paths"] = len(results)
@@ -672,6 +672,14 @@ def order_obligations(chk):
 
 def all_obligations(chk):
     obligations(chk)
+    # the graph visits the *unwrapped* parent (`_level(inspection.unwrap(parent.type))`): a NewType / alias / qualifier chain of a
+    # composite must be peeled completely or its member types are never reached (contract shared with C11 / C16 / C17)
+    from props import unwrap_contract
+    unwrap_contract.obligations(chk)
+    # "every deferred node denotes exactly the type it stands for, parameters included": the reference a revisit is cut with is
+    # pinned to its type on an object of its own (contract shared with C05 / C07 / C11)
+    from props import c11
+    c11.forwardref_obligations(chk)
     level_obligations(chk)
     post_init_obligations(chk)
     order_obligations(chk)
